@@ -1,6 +1,7 @@
 #include "util/murmur_hash.hh"
 
 #include <iostream>
+#include <cstdio>
 #include <cstring>
 #include <memory>
 #include <vector>
@@ -26,6 +27,12 @@ int main(int argc, char *argv[]) {
     if (!count)
       break;
     chained_hash = util::MurmurHashNative(&buffer[0], count, chained_hash);
+  }
+  // With stdio synchronisation (the default) libstdc++ reports a failed
+  // read(2) as end of file; only the C stream remembers the error.
+  if (std::ferror(stdin)) {
+    std::cerr << "Error trying to read from stdin\n";
+    return 1;
   }
   std::cout << std::hex << chained_hash << '\n';
   // std::cout never throws: a failed write only shows in the stream state.
